@@ -558,3 +558,42 @@ func TestC20AgainstRealServer(t *testing.T) {
 		vlib.Class("real-server-roundtrip")
 	})
 }
+
+// TestC13PamEncoder (C13, PAM clause): the module's request bytes equal the reference encoding (= the Go encoder's
+// bytes, checked by C13's other jobs) for user/password lengths on both sides of the 256-byte clip, exhaustively on a small grid.
+func TestC13PamEncoder(t *testing.T) {
+	lens := []int{0, 1, 2, 254, 255, 256, 257, 300}
+	for _, ul := range lens {
+		for _, pl := range lens {
+			mk := func(n int, seed byte) string {
+				b := make([]byte, n)
+				for i := range b {
+					b[i] = byte(1 + (int(seed)+i*31)%254)
+				}
+				return string(b)
+			}
+			user, pw := mk(ul, 7), mk(pl, 99)
+			c := pamCase{User: &user, StackPW: &pw, Opts: []string{"use_first_pass", "timeout=1"}, Server: "script", ReadAll: true, End: "close",
+				Pieces: []piece{{Data: []byte{0, 2, 'O', 'K'}, Len: 4}}, Reply: "text:OK"}
+			rr, err := runPam(c)
+			if err != nil {
+				t.Fatalf("VERIF-INFRA %v", err)
+			}
+			vlib.Eval()
+			want := vlib.RefEncode(clip(user), clip(pw), "", "")
+			var ref sasl.Request
+			ref.Login, ref.Password = clip(user), clip(pw)
+			goBytes, gerr := ref.Marshal()
+			if msg := judgePam(c, rr); msg != "" {
+				vlib.Violation(msg, "TestC13PamEncoder", map[string]any{"user_len": ul, "pw_len": pl})
+				t.Fatalf("VIOLATION C13: PAM module with a %d-byte user and %d-byte password: %s", ul, pl, msg)
+			}
+			if gerr == nil && !bytes.Equal(goBytes, rr.request) {
+				vlib.Violation("PAM encoder bytes differ from the Go encoder's", "TestC13PamEncoder", map[string]any{"user_len": ul, "pw_len": pl})
+				t.Fatalf("VIOLATION C13: the PAM module's request bytes differ from sasl.Request.Marshal for the same (clipped) fields: %d vs %d bytes (reference %d)", len(rr.request), len(goBytes), len(want))
+			}
+			vlib.NT("c13pam", ul, pl)
+		}
+	}
+	vlib.Class("pam-encoder-grid")
+}
